@@ -75,12 +75,27 @@ MkList(s) == IF s = <<>> THEN NIL ELSE Cons(Head(s), MkList(Tail(s)))
 NoU  == [fail |-> TRUE, cyc |-> FALSE, s |-> <<>>]
 CycU == [fail |-> TRUE, cyc |-> TRUE,  s |-> <<>>]
 
-RECURSIVE Occurs(_,_,_)
-Occurs(id, t, s) ==
-  LET w == Walk(t, s) IN
-  IF w.t = "v" THEN w.id = id
-  ELSE IF w.t = "c" THEN \E i \in DOMAIN w.a : Occurs(id, w.a[i], s)
-  ELSE FALSE
+\* Occurs(id, t, s): the unbound variable id occurs in t under s.  Computed as reachability over
+\* variable ids (linear in the number of variables): substitutions share subterms (X = g(Y,Y),
+\* Y = g(Z,Z), ...) and a walk over the expanded term would be exponential.
+RECURSIVE Reach(_,_,_)
+Reach(frontier, seen, s) ==
+  IF frontier = {} THEN seen
+  ELSE LET new == (UNION {IF v \in DOMAIN s THEN VarsOf(s[v]) ELSE {} : v \in frontier}) \ seen IN
+       Reach(new, seen \cup new, s)
+Occurs(id, t, s) == LET v0 == VarsOf(t) IN id \in Reach(v0, v0, s)
+
+\* number of nodes of the term t stands for under s, counted only up to a budget b (returns what is
+\* left of the budget; 0 = the term has at least b nodes).  Used to leave searches that build terms of
+\* exponential size unspecified instead of expanding them.
+RECURSIVE SizeLeft(_,_,_)
+SizeLeft(t, s, b) ==
+  IF b = 0 THEN 0
+  ELSE LET w == Walk(t, s) IN
+       IF w.t = "c"
+       THEN LET F[i \in 0..Len(w.a)] == IF i = 0 THEN b - 1 ELSE SizeLeft(w.a[i], s, F[i-1]) IN F[Len(w.a)]
+       ELSE b - 1
+TooBig(t, s) == SizeLeft(t, s, 3000) = 0
 
 RECURSIVE U(_,_)
 Bind(id, b, rest, s) ==
